@@ -146,9 +146,90 @@ def dsmhSpec (sc m : Nat) (track : Bool) (hs : List Nat) : String :=
       | none => 0)
     dsmhShow t c kept (if track then some ab else none) true
 
+/-! ### stream 6: `SigStore` in every state of its `data` cell
+
+`selstore <route> <prog> <c> <num> <s> [<s2>]` / `selstoreget …`: see harness/src/bin/c14.rs.  Model
+column: `Select.Store` (`Model/Select.lean`: `impl Select for SigStore` takes the signature OUT of the
+cell and refuses an empty one, `data()` fills an empty cell from the storage).  Spec column, on the
+values the sketches were CREATED with: every sketch the store delivers after accepted selections reports
+the value of the last one (sketches created above a request are not delivered); nothing is said about a
+refusal, so `selstore` has a spec only when no select of the program meets an empty cell, and
+`selstoreget` (refused selects retried after `data()`) whenever the store can be read at all. -/
+
+def errName : Select.Err → String
+  | .CannotUpsampleScaled => "CannotUpsampleScaled"
+  | .MismatchKSizes => "MismatchKSizes"
+  | .MismatchDNAProt => "MismatchDNAProt"
+
+def storeSig (c num : Nat) : Select.Sig :=
+  { name := some [120], filename := some [120, 46, 102, 97],
+    sketches := [{ Select.Sketch.new c 21 .dna 42 false num .vec with mins := [7] },
+                 { Select.Sketch.new 1 21 .dna 42 false 0 .tree with mins := [7] }] }
+
+def storeOf (route : String) (sg : Select.Sig) : Option Select.Store :=
+  if route == "from" then some { data := some sg, backing := none }
+  else if route == "nws" || route == "lmem" || route == "lfs" then some { data := some sg, backing := some sg }
+  else if route == "bmem" || route == "bfs" then some { data := none, backing := some sg }
+  else if route == "dsi" then some { data := none, backing := none }
+  else none
+
+/-- the letters of the program on the model store; `.error` = the answer of a refusal -/
+def runStoreProg (retry : Bool) (s s2 : Nat) : List Char → Select.Store → Except String Select.Store
+  | [], st => .ok st
+  | l :: rest, st =>
+    if l == 'r' then
+      runStoreProg retry s s2 rest (match st.read with | some (_, st') => st' | none => st)
+    else if l == 'k' || l == 'K' || l == '-' then runStoreProg retry s s2 rest st
+    else if l == 's' || l == 't' then
+      let sel : Select.Selection := { scaled := some (if l == 's' then s else s2) }
+      match st.select sel with
+      | .ok st' => runStoreProg retry s s2 rest st'
+      | .error e =>
+        if !retry then .error ("err " ++ errName e) else
+        match st.read with
+        | none => .error "err ReadDataError"
+        | some (_, st') =>
+          match st'.select sel with
+          | .ok st'' => runStoreProg retry s s2 rest st''
+          | .error e => .error ("err " ++ errName e)
+    else .error "bad-op"
+
+/-- does a select of the program meet an empty cell (model of the cell's state only) -/
+def progRefused (filled : Bool) : List Char → Bool
+  | [] => false
+  | l :: rest =>
+    if l == 'r' then progRefused true rest
+    else if l == 's' || l == 't' then (!filled) || progRefused filled rest
+    else progRefused filled rest
+
+def selStore (retry : Bool) (route prog : String) (c num s s2 : Nat) : Resp :=
+  match storeOf route (storeSig c num) with
+  | none => { model := "bad-op" }
+  | some st0 =>
+    let model :=
+      match runStoreProg retry s s2 prog.toList st0 with
+      | .error e => e
+      | .ok st =>
+        match st.read with
+        | none => "err ReadDataError"
+        | some (sg, _) => "ok " ++ showNats (sg.sketches.map (·.scaled))
+    -- spec, on the created values
+    let sels := prog.toList.filterMap (fun l => if l == 's' then some s else if l == 't' then some s2 else none)
+    let want := sels.foldl (fun (cur : List Nat) v => (cur.filter (fun x => decide (0 < x ∧ x ≤ v))).map (fun _ => v)) [c, 1]
+    let inRange := decide (c ≤ pow31) && sels.all (fun v => decide (v ≤ pow31))
+    let readable := route != "dsi"
+    let spoken := readable && inRange && (retry || !(progRefused st0.data.isSome prog.toList))
+    { model := model, spec := if spoken then "ok " ++ showNats want else "-" }
+
 def stepC14 (s : St) (ws : List String) : St × Resp :=
   match ws with
   | "case" :: _ => ([], { model := "ok" })
+  | "selstore" :: route :: prog :: c :: num :: sc :: rest =>
+    let sc := sc.toNat!
+    (s, selStore false route prog c.toNat! num.toNat! sc ((rest.getD 0 (toString sc)).toNat!))
+  | "selstoreget" :: route :: prog :: c :: num :: sc :: rest =>
+    let sc := sc.toNat!
+    (s, selStore true route prog c.toNat! num.toNat! sc ((rest.getD 0 (toString sc)).toNat!))
   | ["mrow", k, sc, n] =>
     let sc := sc.toNat!
     (s ++ [(k.toNat!, sc, n.toNat!)],
